@@ -190,6 +190,7 @@ func c31(r *core.Run) {
 	}
 	r.Floor("R2.pure", 20)
 	c31LazyFills(r)
+	c31CacheOrigin(r)
 }
 
 // isGaugeType: an interface (or named type) through which memory or computation can be metered.
@@ -390,4 +391,69 @@ func c31LazyFills(r *core.Run) {
 	}
 	r.OK(rule, "module-wide scan", 0, itoa(len(got))+" lazily filled caches with a metered fill")
 	r.Floor(rule, 1)
+}
+
+// c31CacheOrigin: R4 — the reviewed lazily filled map caches (tables/c31_lazy_metered.json, entries "map T {.field}")
+// are harmless because the object holding them lives for one execution. The map assigned to such a field must therefore
+// be created for that object (make / literal / nil, filled later), never taken from a field of another — longer-lived —
+// object (a config, an environment): a cache shared between executions makes the metered fill happen only once.
+func c31CacheOrigin(r *core.Run) {
+	const rule = "R4.cacheorigin"
+	w := r.W
+	var base map[string]int
+	if !r.Table("c31_lazy_metered", &base) {
+		return
+	}
+	fields := map[string]bool{}
+	for k := range base {
+		if i := strings.Index(k, "{."); strings.HasPrefix(k, "map ") && i > 0 {
+			for _, f := range strings.Fields(strings.Trim(k[i:], "{}")) {
+				fields[strings.TrimPrefix(f, ".")] = true
+			}
+		}
+	}
+	reviewed := map[string]string{}
+	if !r.Table("c31_cache_origin_reviewed", &reviewed) {
+		return
+	}
+	n := 0
+	for _, fn := range w.SrcFuncs() {
+		if fn.Parent() != nil || fn.Pkg == nil || !w.InScope(fn.Pkg.Pkg.Path()) {
+			continue
+		}
+		core.Instrs(fn, true, func(in ssa.Instruction) {
+			st, ok := in.(*ssa.Store)
+			if !ok {
+				return
+			}
+			fa, ok := st.Addr.(*ssa.FieldAddr)
+			if !ok {
+				return
+			}
+			tn, f := structFieldOf(fa)
+			if tn == "" || !fields[f] {
+				return
+			}
+			if why, ok := reviewed[core.SSAKey(fn)+": "+tn+"."+f]; ok {
+				n++
+				r.OK(rule, core.SSAKey(fn)+": "+tn+"."+f, st.Pos(), "reviewed: "+why)
+				return
+			}
+			if _, isMap := st.Val.Type().Underlying().(*types.Map); !isMap {
+				return
+			}
+			n++
+			leaves := core.OriginLeaves(st.Val)
+			shared := false
+			for _, t := range strings.Fields(strings.Trim(leaves, "{}")) {
+				if strings.HasPrefix(t, ".") || strings.HasPrefix(t, "global:") {
+					shared = true
+				}
+			}
+			r.Check(!shared, rule, core.SSAKey(fn)+": "+tn+"."+f, st.Pos(), "the cache map is created for this object "+leaves,
+				"a reviewed per-execution cache is initialised from another object's field / a global "+leaves+": the cache outlives the execution, so its metered fill happens only the first time")
+		})
+	}
+	r.Check(n >= 3, rule, "initialisations of the reviewed map caches", 0, itoa(n)+" found", "fewer cache initialisations than reviewed")
+	r.Floor(rule, 3)
 }
